@@ -25,7 +25,16 @@ RULE = (
     "'closing-child' (20 %): every connection has whole segments and one fixed latency equal to the FIN latency, and "
     "in 70 % of the bursts with >= 2 children one child closes/aborts at the very instant the requests are sent (FIN "
     "and first request reach the client in the same loop iteration, either order): that child may get 0 or 1 "
-    "copies, its siblings exactly one (forward:missing:while-a-child-closes). Oracle per request, "
+    "copies, its siblings exactly one (forward:missing:while-a-child-closes). 'asker-closes' (14 %, same aligned "
+    "latencies; in two thirds of these runs an application listener that sleeps 5 ms while a peer connection is "
+    "CLOSING is registered on the client): pairs of requests with matches from one asker; the asker closes/aborts "
+    "the connection that carried the first reply at the instant the second request is sent (either order) or 1-3 ms "
+    "before it; for the second request a reply counts when the client WROTE it on a connection to the asker (SimNet "
+    "write log), exactly one is required (reply:missing:asker-closed-the-previous-connection). In every family 15 % "
+    "of the bursts with a parent run WITHOUT A SESSION: the server resets its link, the tree connections stay "
+    "open, the parent sends the requests (distributed / legacy), then the harness logs in again; forwarding is "
+    "judged as usual (forward:missing:<carrier>:without-session), the reply is not (no server to look the asker "
+    "up). Oracle per request, "
     "K = links of the client's children at the quiescent moment before the burst, minus every connection the client "
     "itself opened (SimNet: dialled by 'me' or pierced on the client's ConnectToPeer - a connection to a proposed "
     "user is a candidate's whatever the children list says: forward:to-candidate), plus every connection that was "
@@ -52,10 +61,10 @@ ASSUMPTIONS = [
 MIN_OBS = {
     'quick': {'runs': 290, 'requests_judged': 1400, 'forwards_checked': 3000, 'replies_checked': 1000,
               'replies_expected': 250, 'own_name_requests': 100, 'bursts_with_child_closing': 30,
-              'runs_with_many_proposals': 25},
+              'runs_with_many_proposals': 25, 'bursts_without_session': 30, 'bursts_with_asker_closing': 40},
     'thorough': {'runs': 9800, 'requests_judged': 48000, 'forwards_checked': 100000, 'replies_checked': 35000,
                  'replies_expected': 8000, 'own_name_requests': 3500, 'bursts_with_child_closing': 1000,
-                 'runs_with_many_proposals': 900},
+                 'runs_with_many_proposals': 900, 'bursts_without_session': 1000, 'bursts_with_asker_closing': 1300},
 }
 SHARD_TIMEOUT = {'quick': 600, 'thorough': 5400}
 SIZES = {'quick': 3000, 'thorough': 200000}
